@@ -1,7 +1,7 @@
 CFG = {
     "modules": ["Parsley.Props.C04", "Parsley.Props.C04Ctx", "Parsley.Props.C04E2E", "Parsley.Props.C04Hist", "Parsley.Props.C04HistMix", "Parsley.Props.C04Enc",
                 "Parsley.Props.C04Render", "Parsley.Props.C04Hyb", "Parsley.Props.C04ObjStm",
-                "Parsley.Props.C04RenderDeep", "Parsley.Props.C04AnyFlate", "Parsley.Props.C04HybObjStm", "Parsley.Props.C04Fwd", "Parsley.Props.C04All"],
+                "Parsley.Props.C04RenderDeep", "Parsley.Props.C04AnyFlate", "Parsley.Props.C04HybObjStm", "Parsley.Props.C04Fwd", "Parsley.Props.C04All", "Parsley.Props.C04LenMember"],
     "theorems": [
         "Parsley.C04.prev_cycle_or_oob_rejected", "Parsley.C04.root_from_newest", "Parsley.C04.merge_is_newest_wins_partial",
         "Parsley.C04.infoOf_inFile",
@@ -85,6 +85,8 @@ CFG = {
         "Parsley.LoaderE2E.load_hybmix_all_spec", "Parsley.LoaderE2E.HybMixFile.WFo.toAll", "Parsley.LoaderE2E.MixFile.WFfwd.toAll",
         "Parsley.LoaderE2E.hobjs_ofs_inj", "Parsley.LoaderE2E.hsec_reads_sec", "Parsley.LoaderE2E.wstmOf_ok",
         "Parsley.LoaderE2E.renderObj_stm", "Parsley.C03.exDeepO5_simple",
+        # follow-up C03_6 / C04_6 (generator strengthening): the /Length of an ordinary stream stored in an object stream of an older revision
+        "Parsley.C04.length_holder_in_objstm_history_witness",
     ],
     "partial": {
         "merge_is_newest_wins_partial":
@@ -157,6 +159,8 @@ CFG = {
             "history loads exactly (encrypt_in_stream_dict_ignored_observation). "
             "EXCLUDED (real defects, known findings with witness theorems, not proof gaps): histories in which a number changes generation (#29), object-stream "
             "members or containers mentioned again later (#30: memberTouchedLater), a hidden object's free entry with the generation of its stream entry (#31: hiddenClash).",
+        "(known finding 4)": "length-holder-in-objstm (see C03): a history in which an ordinary stream takes its /Length from an integer stored in an object stream (of the same or of another revision) is refused; "
+            "witness length_holder_in_objstm_history_witness (Props/C04LenMember.lean); decided on the case by holdersInObjStm (Driver/C03.lean)",
         "(fuel)": "xrefLoop takes a fuel |file|+1; xrefLoop_fuel_stable/getXrefInfo_fuel_stable: more fuel never changes the result, getXrefInfo_panic_origin: "
             "every panic outcome originates in a component parser, never in the fuel branch; chain_length_bounded: at most |file| sections are read",
     },
@@ -182,6 +186,13 @@ CFG = {
             "section declares in its trailer / its /XRefStm stream's dictionary / both, at any position. Oracle = DocSpec.acceptable: a chain that declares may be REFUSED or must load EXACTLY DocSpec.resolve "
             "of the chain; accepted with objects missing / extra / wrong is bad; the known class is reported only for a case of that shape (as-built rule ends with the flag up) whose output is exactly the "
             "load without the object-stream members. corpus/C04/encrypted.case: hand-built declared-above-stream history (`decl`), undeclared controls, the finding's witness file. "
+            "LONG HISTORIES (added after the missed seed C04_6: a cap of 64 on the number of sections): for every seed a fixed sweep of `long` cases - chains of 1, 2, ..., 40 sections (every length) and 63, 64, 65, 66, 100, 128, 129, 256, 300, 1000 "
+            "(thorough: + 5000) sections: base revision (objects 1 = root, 2, 3) + tiny incremental updates, update i redefining object 2 or 3 and adding object 3 + 2 i, sections all classic tables / all cross-reference streams / alternating / random by seed % 4, "
+            "so that any threshold on the number of sections, revisions or offsets in the cycle set is crossed; oracle DocSpec.resolve (every update's redefinition and addition visible); chains above 129 (thorough: 300) sections are oracle-only (`nomodel`: the byte-list "
+            "model needs time quadratic in the file size), the shorter ones also run through the model. Every 3rd case index a `lenh` history (added after the missed seed C03_6): 2-4 revisions of random layouts in which one revision (cross-reference stream or hybrid) writes an "
+            "object stream CONTAINER (family 1: three) and an ordinary stream whose /Length holders are written by an OLDER revision (later in cross-reference order: second pass across revisions), the SAME revision (number order x file order) or a NEWER one, optionally "
+            "written again by the newest revision with the same integers; 288 combinations = relation x number order x family (as C03 `lenc`, incl. holders that are members of another object stream: known class length-holder-in-objstm for ordinary streams, refused-or-exact for containers) "
+            "x 2-4 revisions x file order x rewrite; every member must be defined with its value. "
             "Every 3rd history also with one "
             "corruption (correspondence and no panic). Oracle = DocSpec.resolve over the revisions on the chain. Classifiers decided on the case: "
             "'generation-changed' = some number is mentioned with two generations; 'objstm-member-touched-later' = a member number is mentioned by a later "
